@@ -3,7 +3,7 @@ import itertools
 import json
 import random
 
-from common import zlit, lst, tup, coq_bad_indices, parallel_coq_bad, CoqError
+from common import zlit, lst, tup, blit, coq_bad_indices, parallel_coq_bad, CoqError
 
 PROP = "C14"
 PROPERTY_FILE = "Properties/C14.v"
@@ -11,7 +11,10 @@ GEN_DEPS = ["GenPairing"]
 RULE = ("cases: exhaustive small ranges + boundary families m^2-1,m^2,m^2+1 (m up to 2^31), m^3+-1, random 60-bit values, "
         "interval shapes L,R in [1,40] with shuffled call orders, size tuples of length 1-4; real Domain/StatesManager objects on 16 "
         "1-d shapes and 16 n-d grids (d = 2,3; centred, off-centre and edge origins; unequal axes) x {Szudzik, Rosenberg-Strong} x "
-        "{no, rectangle, simplex, small simplex, MyBoundary} boundaries; a_n on 0..599, around squares, random < 2e6 and m^2-1 above 2^52; "
+        "{no, rectangle, simplex, small simplex, MyBoundary} boundaries, on each of them every position of the frontier deque drawn on exhaustion "
+        "(np.random.choice scripted) + one protocol history with draws and restarts; a_n on 0..599, around squares, random < 2e6 and m^2-1 above 2^52; "
+        "upper_bound_a_n on 0..259, block edges a_n(m)-1, a_n(m), a_n(m)+1 and random z < 3e5 with the recorded float guesses; hyperbolic pairing2d/projection2d "
+        "against the model with sympy's factorisation as data (0-6 distinct primes); "
         "non-trivial = distinct case whose index/tuple is not all-zero")
 MODELLED = ["PairingToZ1d.__init__ dispatch, PairingToZd glue (d = 2 pair form and general d list form zdn_*), the generic nested "
             "Pairing.pairing/projection (nest_*), PepisKalmar recursion, lazy_indices_product, RosenbergStrong n-d, a_n "
@@ -19,16 +22,31 @@ MODELLED = ["PairingToZ1d.__init__ dispatch, PairingToZd glue (d = 2 pair form a
             "Domain.compute_total_number_of_states_and_frontier, StatesManager.__init__/is_outside (Model/Domain.v) and "
             "project_index_to_state_increment (Model/StatesManager.v): hand models; the grid box is axis sizes + one origin index, "
             "Domain.outside enters as the list of in-grid states it rejects (data), tied by correspondence on real Domain/StatesManager objects",
-            "HyperbolicPairing (sympy.factorint, float root finder upper_bound_a_n): oracle only; only a_n is modelled and proved",
+            "StatesManager._sample_frontier_state_increment / the exhaustion branch of project_index_to_state_increment (Model/FrontierDraw.v): "
+            "np.random.choice(deque) = deque[c] with the position c an explicit input; the deque is the one the model of Domain computes; tied on real "
+            "objects by scripting np.random.choice only (every position, and protocol histories: returned (state, flag) and machine state after every call)",
+            "RosenbergStrong.projection's upward correction of the float root (pairing.py:93) for roots above 2^27 and Cantor.projection(dim != 2) "
+            "(NotImplementedError): oracle only (the exact iroot of the model is too slow by vm_compute at that size)",
+            "HyperbolicPairing (Model/Hyperbolic.v): upper_bound_a_n = bracket selection + bisection with the three float guesses of inv_guess_a "
+            "(scipy Halley root finder) as inputs; pairing2d / projection2d with sympy.factorint's result as an input that the model checks (fact_of: "
+            "increasing primes, positive exponents, product = n); sympy.multiplicity by repeated division; the float division "
+            "floor((z - a_n(n-1)) / prod) of projection2d as integer division (exact below 2^53); np.prod as an unbounded product; "
+            "inv_guess_a and factorint themselves are NOT modelled",
             "functools.cache/lru_cache: modelled as identity on pure functions"]
 ASSUMPTIONS = ["Python int is unbounded (Z); math.isqrt is the integer square root (Z.sqrt)"]
 THEOREM_NOTES = {
     "C14_rs_nd_*": "d-dimensional Rosenberg-Strong: both directions for every dimension d >= 1; iroot is the exact integer root (the repaired code corrects its float guess to it; C14_iroot_unique)",
-    "C14_sm_*": "StatesManager.project_index_to_state_increment as a state machine: over increasing indices without reset it returns exactly the in-grid indices <= max frontier, each once, then exhaustion for ever; the random frontier draw on exhaustion is not modelled",
+    "C14_sm_*": "StatesManager.project_index_to_state_increment as a state machine: over increasing indices without reset it returns exactly the in-grid indices <= max frontier, each once, then exhaustion for ever (the frontier draw returned with the exhaustion flag: C14_frontier_* / C14_fd_protocol)",
     "C14_sm_complete_*": "ONE theorem per enumeration (1-d PairingToZ1d; d >= 2 nested Szudzik, d = 2 being the factory's; d >= 2 Rosenberg-Strong): with max_frontier_indices computed by the model of Domain/StatesManager.__init__, the increasing drive returns every in-grid, in-domain, non-origin state exactly once, then exhaustion; the domain is an arbitrary predicate on state increments; origin index 0 <= o < last axis size is assumed only by the frontier entry all_states[o], not by the theorems",
     "C14_sm_protocol": "repaired method (fix a459753: a restart resumes after the last LOGGED state; state = (_last_projected_index, _last_logged_index)): under InversionMethod's protocol (x = rank of the requested admissible state, max_logged = M >= 1, restarts at rank M once M states are stored, repeats after exhaustion) the call with rank x returns the x-th admissible index for EVERY enumeration; C14_sm_step_char characterises every call exactly; the unrepaired method was refuted (F-C14-6, root cause of F-C02-7: 0,2,2,3 instead of 0,2,3,exhaustion on the witness of Example sm_restart_nonvacuous)",
     "C14_zdn*": "PairingToZd for every dimension over Rosenberg-Strong (d >= 1) and nested Szudzik (d >= 2), omit_zero True and False, both directions; C14_nested_* hold for ANY 2-d bijection (Cantor.projection raises for dim != 2 in the code)",
-    "C14_a_n_divisor_summatory": "a_n with the integer square root (the repaired code, fix 21d4376; finding F-C14-7 for the float sqrt) equals sum_{k<=n} floor(n/k); HyperbolicPairing itself (factorisation, float root finder) stays oracle-only",
+    "C14_a_n_divisor_summatory": "a_n with the integer square root (the repaired code, fix 21d4376; finding F-C14-7 for the float sqrt) equals sum_{k<=n} floor(n/k); HyperbolicPairing beyond a_n: C14_upper_bound_* and C14_hyperbolic_*_partial",
+    "C14_frontier_entries / C14_frontier_draw_char": "exact content of the deque Domain.compute_total_number_of_states_and_frontier returns (n-d, any domain predicate, any pairing that is a bijection): per line of the box the FIRST and LAST in-domain state, or -- whole line outside the domain -- the state of the line at the last axis' origin (fr_axis: an out-of-domain state, defect F-C14-8); a draw returns exactly that state since project inverts pair on every state, the origin (index -1) included",
+    "C14_frontier_draw_{szudzik_nd,rs_nd,factory,z1d}": "admissible (in grid, in domain, not the origin) frontier state for EVERY position c, under: every line meets the domain + the origin has in-domain states on both sides of its line (hypotheses evaluated on the implementation by matches_known); unconditional for the factory's Boundary() with 0 < o < last_size - 1; 'frontier' is the code's notion (first/last in-domain state along the LAST axis only); 1-d: the deque is [pair R; pair(-L)] whatever the boundary (ends outside the domain come back: F-C14-8)",
+    "C14_fd_protocol": "the draw consumes c only on exhausted calls and leaves (_last_projected_index, _last_logged_index) as sm_step_index leaves them (model: by construction; code: pinned by the fdraw* correspondence of the machine state after every call), so C14_sm_protocol lifts: after any number of exhausted calls and draws the call with rank x still returns the x-th admissible state: the enumeration stays a bijection",
+    "C14_frontier_draw_{origin,outside}_refuted": "F-C14-8 on the faithful model (code as is): RectangleBoundary([(-2,2),(-.5,.5)]) on a 5x5 grid, position 4 -> the origin; SimplexBoundary([(-1,1),(-1,1)]), position 0 -> (2,0) outside the domain; the oracle reports both kinds on real objects",
+    "C14_upper_bound_a_n_spec / _unique": "conditional on the validity of the bracket selected from the float guesses (0 <= n_guess; a_n(n_low) <= z if a_n(n_guess) > z; z < a_n(n_high) if a_n(n_guess) < z): NOT proved for all z (Halley iteration in floating point); validated on the implementation's guesses for every z visited (histogram upper_bound_bracket_valid) -- a certified result per visited z, not a for-all bound; numbers.py:58 (z == 0) is the first branch of the model",
+    "C14_hyperbolic_offset_{decode,encode}_partial": "PARTIAL: the mixed-radix code (pairing2d's offset <-> projection2d's x_exponents) is a bijection between exponent vectors r_i <= e_i and [0, prod(1+e_i)); missing for the full round trip of HyperbolicPairing: multiplicity(p_i, x+1) ranges over exactly these vectors when x+1 runs over the divisors of n, x+1 = prod p_i^r_i (unique factorisation), and a_n(n) - a_n(n-1) = prod(1+e_i); the full maps are tied by correspondence (hyp_pair / hyp_proj) and the round-trip oracle",
     "C14_pepis_kalmar_*": "pk_pairing2d is generated from the source; pk_projection2d (recursive _aux_k/_aux_j) is the hand model of Model/Pairing.v, tied by correspondence",
 }
 
@@ -256,9 +274,11 @@ def correspond(res):
     _reset_history(res, rng, viol)
     _nested_and_zdn(res, rng, viol, groups)
     _a_n(res, rng, viol, groups)
+    _hyperbolic_model(res, rng, viol, groups)
+    _coverage_holes(res, rng, viol)
 
     # ---------- Coq side: the model must compute exactly what the implementation returned -----
-    header = ("From Coq Require Import ZArith List Bool.\nFrom RV Require Import Gen.GenPairing Model.Pairing Model.StatesManager Model.Domain Proofs.C14_StatesManager.\nOpen Scope Z_scope.\n"
+    header = ("From Coq Require Import ZArith List Bool.\nFrom RV Require Import Gen.GenPairing Model.Pairing Model.StatesManager Model.Domain Model.FrontierDraw Model.Hyperbolic Proofs.C14_StatesManager.\nOpen Scope Z_scope.\n"
               "Fixpoint sm_lasts (o : Z -> bool) (maxf : Z) (st : Z * Z) (cs : list (Z*Z)) : list (Z * Z) := match cs with nil => nil | c :: r => "
               "let s := sm_step Z (fun i => i) o maxf st (fst c) (snd c) in snd s :: sm_lasts o maxf (snd s) r end.")
     res.case_lemmas += len(groups)
@@ -358,6 +378,109 @@ def _a_n(res, rng, viol, groups):
                  kind="a_n", n=n, m=m, got=v, expected=want)
 
 
+def _hyperbolic_model(res, rng, viol, groups):
+    """HyperbolicPairing beyond a_n against Model/Hyperbolic.v.  upper_bound_a_n: the three float guesses of inv_guess_a are
+    recorded (the function is wrapped, not replaced) and handed to the model, which redoes the bracket selection and the
+    bisection; the oracle checks a_n(n-1) <= z < a_n(n) on the implementation and histograms the validity of the bracket
+    (hypothesis of C14_upper_bound_a_n_spec).  pairing2d / projection2d: sympy's factorisation is data (verified by
+    fact_of inside Coq); projection2d is composed with the model's own upper_bound_a_n."""
+    from sympy import factorint
+    from rpylib.numerical import numbers as N
+    from rpylib.distribution import pairing as P
+    hp = P.HyperbolicPairing()
+    a_n = N.a_n
+    tier = res.tier
+    zs = set(range(0, 260)) | {10672, 10673, 10674} | {rng.randrange(260, 300000) for _ in range(150 if tier == "quick" else 1500)}
+    for m in [rng.randrange(2, 40000) for _ in range(40 if tier == "quick" else 400)]:
+        zs |= {int(a_n(m)) - 1, int(a_n(m)), int(a_n(m)) + 1}                      # block edges: a_guess == z and its neighbours
+    real = N.inv_guess_a
+    ub_cases, pr_cases = [], []
+    for z in sorted(zs):
+        rec = []
+
+        def wrapped(c, rec=rec):
+            v = real(c)
+            rec.append(int(v))
+            return v
+        N.inv_guess_a = wrapped
+        try:
+            n = int(N.upper_bound_a_n(z))
+        finally:
+            N.inv_guess_a = real
+        lo, g, hi = rec if len(rec) == 3 else (0, 0, 0)
+        res.count(("ub", z), nontrivial=z > 0, kind="upper_bound_a_n")
+        if z > 0:
+            ag = int(a_n(g))
+            branch = "equal" if ag == z else ("lower" if ag > z else "upper")
+            ok = g >= 0 and (ag <= z or (lo >= 0 and int(a_n(lo)) <= z)) and (ag >= z or z < int(a_n(hi)))
+            res.bump("upper_bound_branch", branch)
+            res.bump("upper_bound_bracket_valid", ok)
+        if not (n >= 1 and int(a_n(n - 1)) <= z < int(a_n(n))):
+            viol("upper_bound_a_n(z) is not the n with a_n(n-1) <= z < a_n(n)", kind="ub", z=z, got=n, guesses=[lo, g, hi])
+        ub_cases.append((z, lo, g, hi, n))
+        if z < 260 or len(pr_cases) < 420:
+            x, y = (int(v) for v in hp.projection2d(z))
+            fact = sorted((int(p), int(e)) for p, e in factorint(n).items())
+            pr_cases.append((z, lo, g, hi, fact, x, y))
+    groups.append(("hyp_ub", "Z * Z * Z * Z * Z", "fun c => match c with (z, lo, g, hi, n) => Z.eqb (upper_bound_a_n z lo g hi) n end",
+                   [f"({zlit(z)}, {zlit(lo)}, {zlit(g)}, {zlit(hi)}, {zlit(n)})" for z, lo, g, hi, n in ub_cases]))
+
+    def flit(fact):
+        return lst([f"({zlit(p)}, {zlit(e)})" for p, e in fact])
+    groups.append(("hyp_proj", "Z * Z * Z * Z * list (Z * Z) * (Z * Z)",
+                   "fun c => match c with (z, lo, g, hi, fact, xy) => let n := upper_bound_a_n z lo g hi in "
+                   "fact_of fact n && zpair_eqb (hyp_projection2d fact n z) xy end",
+                   [f"({zlit(z)}, {zlit(lo)}, {zlit(g)}, {zlit(hi)}, {flit(fact)}, ({zlit(x)}, {zlit(y)}))" for z, lo, g, hi, fact, x, y in pr_cases]))
+    pa_cases = []
+    xys = [(a, b) for a in range(18) for b in range(18)] + [(rng.randrange(0, 3000), rng.randrange(0, 3000)) for _ in range(120)]
+    xys += [(3612, 4050), (4050, 3612), (2 ** 10 - 1, 3 ** 5 - 1), (2 * 3 * 5 * 7 - 1, 11 * 13 - 1), (0, 30029), (30029, 0)]
+    for (x, y) in xys:
+        z = int(hp.pairing2d(x, y))
+        n = (x + 1) * (y + 1)
+        fact = sorted((int(p), int(e)) for p, e in factorint(n).items())
+        res.count(("hyp-model", x, y), nontrivial=(x, y) != (0, 0), kind="hyperbolic pairing2d (model)")
+        res.bump("hyperbolic_distinct_primes", len(fact))
+        pa_cases.append((x, y, fact, z))
+    groups.append(("hyp_pair", "Z * Z * list (Z * Z) * Z",
+                   "fun c => match c with (x, y, fact, z) => fact_of fact ((x + 1) * (y + 1)) && Z.eqb (hyp_pairing2d fact x y) z end",
+                   [f"({zlit(x)}, {zlit(y)}, {flit(fact)}, {zlit(z)})" for x, y, fact, z in pa_cases]))
+
+
+def _coverage_holes(res, rng, viol):
+    """lines no other case reaches (audit3 C.14), oracle on the implementation only:
+    pairing.py:93 -- RosenbergStrong.projection corrects its float root UPWARD (`m += 1`): needs z ** (1/dim) + 1e-8 to fall below
+    the integer root, i.e. roots above ~2^27 (dim 3) where the float power loses more than the epsilon guard; the Coq model's
+    iroot is the exact root (C14_iroot_unique) but far too slow by vm_compute at this size, so round trip only;
+    Cantor.projection(z, dim != 2) raises NotImplementedError (dimension d >= 3 is not offered by Cantor's projection)."""
+    from math import floor
+    from rpylib.distribution import pairing as P
+    rs = P.RosenbergStrong()
+    for dim, lo, hi in ((3, 2 ** 30, 2 ** 46), (4, 2 ** 22, 2 ** 34), (5, 2 ** 18, 2 ** 27)):
+        for _ in range(60 if res.tier == "quick" else 600):
+            m = rng.randrange(lo, hi)
+            for z in (m ** dim - 1, m ** dim, m ** dim + rng.randrange(0, m)):
+                guess = floor(z ** (1 / dim) + rs._epsilon)
+                root = m - 1 if z < m ** dim else m
+                x = tuple(int(v) for v in rs.projection(z, dim))
+                res.count(("rs-root", dim, z), kind=f"rs.projection d={dim} large root")
+                res.bump("rs_float_root_correction", "up (pairing.py:93)" if guess < root else ("down" if guess > root else "none"))
+                if len(x) != dim or min(x) < 0 or max(x) != root or int(rs.pairing(x)) != z:
+                    viol("RosenbergStrong n-d: pairing(projection(z)) != z for a large root (float guess corrected to the integer root)",
+                         kind="rsnd", dim=dim, z=z, got=list(x), float_guess=guess, root=root)
+    c = P.Cantor()
+    for dim in (1, 3, 4):
+        res.count(("cantor-dim", dim), kind="Cantor.projection dim != 2")
+        try:
+            got = c.projection(7, dim)
+            viol("Cantor.projection(z, dim != 2) returned a value instead of raising NotImplementedError", kind="cantor-dim", dim=dim, got=list(got))
+        except NotImplementedError:
+            res.bump("cantor_projection_dim_ne_2", "NotImplementedError")
+        except Exception as e:  # noqa
+            viol(f"Cantor.projection(z, dim != 2) raises {type(e).__name__} instead of NotImplementedError", kind="cantor-dim", dim=dim)
+    if tuple(int(v) for v in c.projection(c.pairing((3, 4)), 2)) != (3, 4):
+        viol("Cantor.projection(pairing((3,4)), 2) != (3,4)", kind="cantor-dim", dim=2)
+
+
 def _enumerate(sm, limit=200000):
     got, x = [], 0
     while x < limit:
@@ -367,6 +490,112 @@ def _enumerate(sm, limit=200000):
         got.append(tuple(int(v) for v in s) if hasattr(s, "__len__") else int(s))
         x += 1
     return got
+
+
+def _make_boundary(P, name, truncations, threshold):
+    tr = None if truncations is None else [tuple(t) for t in truncations]
+    if name == "none":
+        return P.Boundary()
+    if name == "rectangle":
+        return P.RectangleBoundary(truncations=tr)
+    if name in ("simplex", "simplex-small"):
+        return P.SimplexBoundary(truncations=tr)
+    if name == "my":
+        return P.MyBoundary(truncations=tr, threshold=threshold)
+    raise ValueError(name)
+
+
+def _build_sm(P, dim, sizes, o, pname, boundary):
+    """a real grid + pairing + Domain + StatesManager (1-d: PairingToZ1d; n-d: PairingToZd over Szudzik / Rosenberg-Strong)"""
+    import numpy as np
+    from rpylib.grid.spatial import CTMCGrid
+    axes = [np.array([float(k) for k in range(-o, n - o)]) for n in sizes]
+    grid = CTMCGrid(h=1.0, origin_coordinate=o, axes=axes)
+    if dim == 1:
+        pairing = P.PairingToZ1d((-o, sizes[0] - o - 1), omit_zero=True)
+    else:
+        pairing = P.PairingToZd(pairing=P.Szudzik() if pname == "szudzik" else P.RosenbergStrong(), dimension=dim)
+    dom = P.Domain(boundary=boundary, grid=grid, pairing=pairing)
+    return grid, pairing, dom, P.StatesManager(pairing=pairing, domain=dom, grid=grid)
+
+
+def _as_state(s):
+    return tuple(int(v) for v in s) if hasattr(s, "__len__") else (int(s),)
+
+
+def _call_with_choice(sm, x, ml, c):
+    """one call of project_index_to_state_increment with np.random.choice scripted to pick position c of its argument
+    (the only source of randomness of the method); returns (state, flag, whether choice was consumed)"""
+    import numpy as np
+    real, used = np.random.choice, []
+
+    def scripted(a, *args, **kw):
+        used.append(len(a))
+        return list(a)[c]
+    np.random.choice = scripted
+    try:
+        s, done = sm.project_index_to_state_increment(x, ml)
+    finally:
+        np.random.choice = real
+    return _as_state(s), bool(done), bool(used)
+
+
+def _frontier_draws(res, rng, P, dim, sizes, o, pname, bname, boundary, K, fd_cases, viol):
+    """(a) oracle on the implementation: every position of the frontier deque, drawn on exhaustion, must give an admissible
+    state (in the grid, in the domain, not the origin) -- F-C14-8 where it does not; one unscripted draw (real
+    np.random.choice) must return the state of some deque entry.  (b) a protocol history with exhausted calls, scripted
+    draws and restarts on a fresh object, recorded call by call for the correspondence with Model/FrontierDraw.v."""
+    import numpy as np
+    grid, pairing, dom, sm = _build_sm(P, dim, sizes, o, pname, boundary)
+    frontier = [int(v) for v in sm.frontier_states_indices]
+    for x in range(K):
+        sm.project_index_to_state_increment(x)
+    zero = tuple([0] * dim)
+    edge = o == 0 or o == sizes[-1] - 1
+    spec = dict(boundary._c14_spec)
+    reported = set()
+    for c in range(len(frontier)):
+        s, done, used = _call_with_choice(sm, K, -1, c)
+        res.count(("fdraw", dim, tuple(sizes), o, pname, bname, c), kind=f"frontier draw {dim}d {bname}")
+        st = s if dim > 1 else s[0]
+        is_out = bool(sm.is_outside(st))
+        res.bump("frontier_draw", "origin" if s == zero else ("outside" if is_out else "admissible"))
+        if not done or not used:
+            viol("StatesManager: a call after exhaustion does not signal exhaustion / does not draw from the frontier", kind="frontier-draw",
+                 dim=dim, sizes=sizes, origin=o, pairing=pname, position=c, **spec)
+        elif (s == zero or is_out) and ("origin" if s == zero else "outside") not in reported:
+            reported.add("origin" if s == zero else "outside")          # one report per object and kind (every position is still drawn and histogrammed)
+            viol("StatesManager: the frontier draw on exhaustion returns the origin" if s == zero else
+                 "StatesManager: the frontier draw on exhaustion returns a state outside the domain",
+                 finding="F-C14-8", kind="frontier-draw", dim=dim, sizes=sizes, origin=o, pairing=pname, position=c, n_states=K,
+                 frontier=frontier, got=list(s), is_origin=s == zero, outside_domain=is_out, origin_on_edge=edge, **spec)
+    s_real, done = sm.project_index_to_state_increment(K)
+    if _as_state(s_real) not in {_as_state(pairing.project(f)) for f in frontier} or not done:
+        viol("StatesManager: the state returned on exhaustion is not the projection of an entry of frontier_states_indices", kind="frontier-draw",
+             dim=dim, sizes=sizes, origin=o, pairing=pname, got=list(_as_state(s_real)), **spec)
+    if fd_cases is None:
+        return
+    # protocol history on a fresh object: __init__ call, logged ranks, then samples running into exhaustion, restarts at rank M
+    grid, pairing, dom, sm = _build_sm(P, dim, sizes, o, pname, boundary)
+    M = rng.randint(1, K + 1)
+    calls = [(0, -1, 0)] + [(x, M, rng.randrange(len(frontier))) for x in range(1, min(M, K + 1))]
+    for _ in range(3):
+        if M <= K:
+            hi = rng.choice([K, K, rng.randint(M, K)])
+            calls += [(x, M, rng.randrange(len(frontier))) for x in range(M, hi + 1)]
+            if hi == K and rng.random() < 0.5:
+                calls.append((K, M, rng.randrange(len(frontier))))          # the call is repeated after an exhaustion
+    rets, lasts = [], []
+    for x, ml, c in calls:
+        s, done, used = _call_with_choice(sm, x, ml, c)
+        rets.append((s, done))
+        lasts.append((int(sm._last_projected_index), int(sm._last_logged_index)))
+        if used != done:
+            viol("StatesManager: np.random.choice is consumed by a call that does not signal exhaustion (or the reverse)", kind="frontier-draw",
+                 dim=dim, sizes=sizes, origin=o, pairing=pname, call=[x, ml, c], **spec)
+    res.count(("fdraw-hist", dim, tuple(sizes), o, pname, bname, tuple(calls)), kind="frontier draw protocol history")
+    res.bump("frontier_draw_history_exhausted_calls", sum(1 for _, d in rets if d))
+    fd_cases.append((calls, rets, lasts))
 
 
 def _boundaries(P, rng, dim, sizes, o):
@@ -379,12 +608,17 @@ def _boundaries(P, rng, dim, sizes, o):
                 lo, hi = rng.randint(1, lo), rng.randint(1, hi)
             t.append((-float(lo), float(hi)))
         return t
-    out = [("none", P.Boundary())]
-    out.append(("rectangle", P.RectangleBoundary(truncations=trunc(1))))
-    out.append(("simplex", P.SimplexBoundary(truncations=trunc(0))))
-    out.append(("simplex-small", P.SimplexBoundary(truncations=trunc(1))))
+    specs = [("none", None, None)]
+    specs.append(("rectangle", trunc(1), None))
+    specs.append(("simplex", trunc(0), None))
+    specs.append(("simplex-small", trunc(1), None))
     if dim >= 2:
-        out.append(("my", P.MyBoundary(truncations=trunc(0), threshold=rng.choice([0.5, 1.5]))))
+        specs.append(("my", trunc(0), rng.choice([0.5, 1.5])))
+    out = []
+    for name, tr, th in specs:
+        b = _make_boundary(P, name, tr, th)
+        b._c14_spec = {"boundary": name, "truncations": None if tr is None else [list(t) for t in tr], "threshold": th}
+        out.append((name, b))
     return out
 
 
@@ -397,7 +631,8 @@ def _states_manager(res, rng, viol, groups):
     from rpylib.distribution import pairing as P
     from rpylib.grid.grid import Coordinates
     from rpylib.grid.spatial import CTMCGrid
-    one_d, n_d = [], []
+    one_d, n_d, one_d_fd, n_d_fd = [], [], [], []
+    np.random.seed(res.seed % 2 ** 32)
     # 1-d: interval shapes x boundaries
     shapes = [(rng.randrange(1, 8), rng.randrange(1, 8)) for _ in range(12)] + [(1, 1), (1, 5), (5, 1), (3, 3)]
     for (L, R) in shapes:
@@ -417,7 +652,10 @@ def _states_manager(res, rng, viol, groups):
             if sorted(got) != sorted(want):
                 viol("StatesManager(1-d) does not return every in-grid, in-domain non-origin state exactly once before exhaustion",
                      kind="sm", L=L, R=R, boundary=bname, got=got, missing=sorted(want - set(got)), extra=sorted(set(got) - want))
+            fd1 = []
+            _frontier_draws(res, rng, P, 1, [n], L, "z1d", bname, boundary, len(got), fd1, viol)
             one_d.append((n, L, rejected, msi, frontier, got))
+            one_d_fd.append((n, L, rejected) + fd1[0])
     # n-d: centred / off-centre origin (also on the edge), equal / unequal axis lengths, both pairings the factory can choose
     grids = [(2, [5, 5], 2), (2, [7, 7], 3), (2, [7, 7], 4), (2, [7, 7], 1), (2, [5, 9], 2), (2, [9, 5], 2), (2, [4, 6], 1),
              (2, [3, 4], 1), (2, [6, 3], 2), (2, [4, 4], 0), (2, [5, 4], 3),
@@ -448,7 +686,10 @@ def _states_manager(res, rng, viol, groups):
                 if msi != max([int(pairing.pair(s)) for s in box if s not in set(rejected)] + [-1]):
                     viol("Domain.max_state_index is not the largest pairing index of an in-domain state", kind="dom", dim=dim, sizes=sizes,
                          origin=o, pairing=pname, boundary=bname, max_state_index=msi)
+                fdn = []
+                _frontier_draws(res, rng, P, dim, sizes, o, pname, bname, boundary, len(got), fdn, viol)
                 n_d.append((0 if pname == "rs" else 1, sizes, o, rejected, msi, frontier, got))
+                n_d_fd.append((0 if pname == "rs" else 1, sizes, o, rejected) + fdn[0])
 
     def zl(xs):
         return lst([zlit(v) for v in xs])
@@ -469,6 +710,36 @@ def _states_manager(res, rng, viol, groups):
                    "list_eqb zlist_eqb (map (zdn_project nproj d 1) (sm_good (list Z) (zdn_project nproj d 1) (sm_is_outside sizes o dout) (dom_maxf r))) states end",
                    [f"({tag}, {zl(sizes)}, {zlit(o)}, {lst([zl(x) for x in outs])}, {zlit(msi)}, {zl(fr)}, {lst([zl(x) for x in states])})"
                     for tag, sizes, o, outs, msi, fr, states in n_d]))
+
+
+    # the frontier draw: protocol histories with scripted np.random.choice positions against Model/FrontierDraw.v
+    # (returned (state, flag) of every call and the machine state after it; deque, max_frontier_indices and the
+    # admissibility test are recomputed by the model from the box, the origin index and the rejected states)
+    def calls_lit(calls):
+        return lst([f"(({zlit(x)}, {zlit(ml)}), {c}%nat)" for x, ml, c in calls])
+
+    def lasts_lit(lasts):
+        return lst([f"({zlit(a)}, {zlit(b)})" for a, b in lasts])
+    groups.append(("fdraw1d", "Z * Z * list Z * list (Z * Z * nat) * list (Z * bool) * list (Z * Z)",
+                   "fun c => match c with (n, o, outs, calls, rets, lasts) => "
+                   "let dout := fun s => existsb (Z.eqb s) outs in let L := o in let R := n - o - 1 in "
+                   "let r := dom_1d (z1d_pair (- L) R 1) n o in let out := sm_is_outside_1d n o dout in "
+                   "list_eqb (fun a b => Z.eqb (fst a) (fst b) && Bool.eqb (snd a) (snd b)) "
+                   "(fd_run Z (z1d_project (- L) R 1) out (dom_maxf r) (snd r) sm_init calls) rets && "
+                   "list_eqb zpair_eqb (fd_lasts Z (z1d_project (- L) R 1) out (dom_maxf r) (snd r) sm_init calls) lasts end",
+                   [f"({zlit(n)}, {zlit(o)}, {zl(outs)}, {calls_lit(calls)}, "
+                    f"{lst([f'({zlit(s[0])}, {blit(d)})' for s, d in rets])}, {lasts_lit(lasts)})" for n, o, outs, calls, rets, lasts in one_d_fd]))
+    groups.append(("fdrawnd", "Z * list Z * Z * list (list Z) * list (Z * Z * nat) * list (list Z * bool) * list (Z * Z)",
+                   "fun c => match c with (tag, sizes, o, outs, calls, rets, lasts) => "
+                   "let dout := fun s => existsb (zlist_eqb s) outs in "
+                   "let npair := if tag =? 0 then rs_pairing else nest_pairing szudzik_pairing2d in "
+                   "let nproj := if tag =? 0 then rs_projection else nest_projection szudzik_projection2d in "
+                   "let d := length sizes in let r := dom_nd dout (zdn_pair npair 1) sizes o in let out := sm_is_outside sizes o dout in "
+                   "list_eqb (fun a b => zlist_eqb (fst a) (fst b) && Bool.eqb (snd a) (snd b)) "
+                   "(fd_run (list Z) (zdn_project nproj d 1) out (dom_maxf r) (snd r) sm_init calls) rets && "
+                   "list_eqb zpair_eqb (fd_lasts (list Z) (zdn_project nproj d 1) out (dom_maxf r) (snd r) sm_init calls) lasts end",
+                   [f"({tag}, {zl(sizes)}, {zlit(o)}, {lst([zl(x) for x in outs])}, {calls_lit(calls)}, "
+                    f"{lst([f'({zl(s)}, {blit(d)})' for s, d in rets])}, {lasts_lit(lasts)})" for tag, sizes, o, outs, calls, rets, lasts in n_d_fd]))
 
 
 def _reset_history(res, rng, viol):
@@ -513,9 +784,57 @@ def _reset_history(res, rng, viol):
                          rank=calls[k][0], got=None if got[k] is None else list(got[k]), expected=None if want[k] is None else list(want[k]))
 
 
+def _redraw(r):
+    """re-run a recorded frontier draw on the implementation: rebuild the grid / boundary / StatesManager of the replay,
+    exhaust it, draw position r['position'].  Returns (state, outside the grid or domain?, do the hypotheses of the
+    admissibility theorems hold on this object?) -- the hypotheses are evaluated with the implementation's own
+    Domain.outside: every line of the box meets the domain and the origin has in-domain states on both sides of its line
+    (C14_frontier_draw_szudzik_nd / _rs_nd); 1-d: both ends of the grid are in the domain (C14_frontier_draw_z1d)"""
+    import itertools as it
+    from rpylib.distribution import pairing as P
+    from rpylib.grid.grid import Coordinates
+    dim, sizes, o = r["dim"], list(r["sizes"]), r["origin"]
+    boundary = _make_boundary(P, r["boundary"], r["truncations"], r["threshold"])
+    grid, pairing, dom, sm = _build_sm(P, dim, sizes, o, r["pairing"], boundary)
+    K = len(_enumerate(sm))
+    s, done, used = _call_with_choice(sm, K, -1, r["position"])
+    is_out = bool(sm.is_outside(s if dim > 1 else s[0]))
+
+    def dout(inc):
+        return bool(dom.outside(grid[Coordinates([o + v for v in inc] if dim > 1 else o + inc[0])]))
+    if dim == 1:
+        hyp = not dout((-o,)) and not dout((sizes[0] - o - 1,)) and 0 < o < sizes[0] - 1
+    else:
+        last = sizes[-1]
+        lines = all(any(not dout(tuple(k - o for k in ks) + (j - o,)) for j in range(last))
+                    for ks in it.product(*[range(n) for n in sizes[:-1]]))
+        z = tuple([0] * (dim - 1))
+        interior = any(not dout(z + (j - o,)) for j in range(0, o)) and any(not dout(z + (j - o,)) for j in range(o + 1, last))
+        hyp = lines and interior and 0 <= o < last
+    return s, is_out, hyp, (done and used), K
+
+
 def matches_known(v, known):
-    """no known finding is left for C14 (F-C14-6 and F-C14-7 are fixed): a tag absorbs nothing"""
-    return False
+    """F-C14-8 (frontier draw returns the origin / a state outside the domain): a violation is the recorded one only if
+    every field is present, the draw re-run on the implementation gives the recorded inadmissible state, and the object
+    lies OUTSIDE the hypotheses of the admissibility theorems (a non-default boundary leaving a line without in-domain
+    state or the origin at an end of the in-domain part of its line; or the origin on the edge of the last axis).  An
+    inadmissible draw on an object that meets the hypotheses contradicts a theorem and is never absorbed."""
+    if known.get("id") != "F-C14-8":
+        return False
+    r = v.get("replay", {})
+    need = ("kind", "dim", "sizes", "origin", "pairing", "position", "got", "boundary", "truncations", "threshold", "is_origin",
+            "outside_domain", "origin_on_edge", "n_states")
+    if any(k not in r for k in need) or r["kind"] != "frontier-draw":
+        return False
+    if not (r["is_origin"] or r["outside_domain"]):
+        return False
+    try:
+        s, is_out, hyp, drew, K = _redraw(r)
+    except Exception:  # noqa
+        return False
+    return (drew and not hyp and list(s) == list(r["got"]) and (not any(s)) == bool(r["is_origin"])
+            and is_out == bool(r["outside_domain"]) and K == r["n_states"])
 
 
 def _states_manager_machine(res, rng, groups):
@@ -598,10 +917,15 @@ def replay(path):
         _reset_history(_R(), random.Random(0), lambda what, **kw: hits.append((what, kw)))
         print("restart protocol:", hits[0][1] if hits else "every call with rank x returned the x-th admissible state")
         return 1 if hits else 0
+    if k == "frontier-draw" and "position" in data and "boundary" in data:
+        s, is_out, hyp, drew, K = _redraw(data)
+        print("frontier draw at position", data["position"], "after", K, "states ->", list(s), "| origin:", not any(s),
+              "| outside grid/domain:", is_out, "| hypotheses of the admissibility theorems hold:", hyp)
+        return 1 if (not any(s) or is_out or not drew) else 0
     print("replay: re-run ./check C14 to re-evaluate this class of input")
     return 1
 
-LEVEL_TEXT = ("Proof: 53 Coq theorems (closed under the global context, no axioms). The Cantor, Rosenberg-Strong (2-d and d-dimensional), Szudzik "
+LEVEL_TEXT = ("Proof: 68 Coq theorems (closed under the global context, no axioms). The Cantor, Rosenberg-Strong (2-d and d-dimensional), Szudzik "
               "and Pepis-Kalmar pairings and their projections are mutually inverse on all naturals; the generic nested pairing/projection "
               "for dim > 2 is a bijection for any 2-d bijection; the N<->Z maps, PairingToZd (every d, over Rosenberg-Strong and nested "
               "Szudzik, omit_zero True and False) and PairingToZ1d (every interval [-L,R], every index, hence every call order, omit_zero "
@@ -613,9 +937,15 @@ LEVEL_TEXT = ("Proof: 53 Coq theorems (closed under the global context, no axiom
               "the repaired method) are proved harmless for every enumeration under InversionMethod's protocol: the call with rank x "
               "returns the x-th admissible index. a_n is proved equal "
               "to the divisor summatory function. Straight-line functions are re-translated from /repo by py2coq on every run; loops/classes "
-              "are hand-modelled and compared with the implementation by vm_compute on ~25k boundary and random cases, including real "
-              "Domain/StatesManager objects (max_state_index, frontier deque, whole enumeration) under non-trivial boundaries. Partial: the "
-              "hyperbolic pairing beyond a_n (factorisation, float root finder) is oracle-only; the frontier draw on exhaustion is not modelled.")
+              "are hand-modelled and compared with the implementation by vm_compute on ~29k boundary and random cases, including real "
+              "Domain/StatesManager objects (max_state_index, frontier deque, whole enumeration) under non-trivial boundaries. The frontier "
+              "draw on exhaustion is inside the model (random position as an input): the deque is characterised entry by entry, every draw returns an "
+              "admissible frontier state for the factory's Boundary() with an interior origin (and under two stated hypotheses for any domain), the draw "
+              "leaves the enumeration's state alone (protocol theorem with draws); with other boundaries the draw returns the origin or an out-of-domain "
+              "state: refuted on the model, known finding F-C14-8. Hyperbolic pairing: a_n strictly increasing; upper_bound_a_n (bracket + bisection, "
+              "float guesses as inputs) returns the unique n with a_n(n-1) <= z < a_n(n) whenever the bracket is valid (validated per visited z); "
+              "pairing2d/projection2d modelled with the factorisation as checked data. Partial: the full round trip of the hyperbolic pairing "
+              "(unique-factorisation step) and the validity of the float bracket for all z are not proved (correspondence + oracle only).")
 LEVEL_NOTE = ("Trusted: Coq kernel + vm_compute; py2coq translator (fail-closed, also cross-checked by running generated definitions "
               "against the implementation); Python ints modelled as Z, math.isqrt as Z.sqrt; caches modelled as identity.")
 TECHNIQUE = "Coq proof (lia/nia over Z, induction over size lists) on py2coq-generated definitions + vm_compute correspondence"
